@@ -84,6 +84,18 @@ claimed["C12"]=dict(
    text="For every configuration, request and network behaviour: each transport tries every configured KDC before giving up and returns the first reply, TCP framing reads complete header and body, sendToKDC follows the udp_preference_limit order, surfaces a KRB-ERROR with its code and falls back after a KRB-ERROR only for response-too-big. Timing (deadlines) and the KDC's own behaviour are outside the contracts.",
    note="Trusted: stdlib network contracts (arbitrary failures, short TCP reads), ASN.1 decoder in checkForKRBError.",
    design="4/C12")
+claimed["C05"]=dict(
+   technique="contract-based deductive verification: the RFC message-encryption compositions as spec functions over uninterpreted cipher modes / HMAC with inverse laws; exact-function postconditions on the real EncryptMessage / DecryptMessage / EncryptData / DecryptData of the four families and the six etype methods (checked against the etype interface contract), a round-trip lemma proved from the specification by a contract on an empty verif-tagged lemma function, and a vacuity canary; discharged by z3/cvc5 via gowp",
+   category="proof",
+   text="For all six etypes and every key, usage and message the library's encryption is exactly the RFC 3961/3962/8009/4757 composition over the confounder drawn from crypto/rand, its decryption returns the decrypted body without confounder, and decrypting any RFC encryption yields the message (lemma from the specification), so library and an RFC implementation interoperate in both directions (des3 up to zero padding).",
+   note="Trusted: uninterpreted AES-CTS / 3DES-CBC / RC4 / HMAC with inverse laws, dependency contracts (aescts, crypto/cipher, rc4, crypto/rand), sequence laws; vacuity canary on every run.",
+   design="4/C05")
+claimed["C06"]=dict(
+   technique="contract-based deductive verification: acceptance condition of DecryptMessage / VerifyIntegrity of every family as postconditions (carried MAC equals the RFC MAC over the decrypted body under the usage-derived keys), error paths return no plaintext; discharged by z3/cvc5 via gowp",
+   category="proof",
+   text="For all six etypes: decryption succeeds only if the presented bytes carry the RFC MAC for what they decrypt to under the presented key and usage, and returns no plaintext otherwise; that modified ciphertexts, other keys or usages fail then rests on the MAC assumption.",
+   note="Trusted: HMAC uninterpreted + MAC assumption, cipher modes uninterpreted, key derivation from C07/C08.",
+   design="4/C06")
 hooks=subprocess.run("git -C /repo log --format='%H %s' | grep ' verif:' | awk '{print $1}'",shell=True,capture_output=True,text=True).stdout.split()
 m={"version":1,
  "setup_cmd":"./setup.sh",
